@@ -1,6 +1,7 @@
 package props
 
 import (
+	"crypto/rsa"
 	"fmt"
 	"os"
 	"strings"
@@ -508,7 +509,7 @@ func c34SealedInner() *explore.Scenario {
 }
 
 func c34Scenarios(thorough bool) []*explore.Scenario {
-	return []*explore.Scenario{c34Hellos(thorough), c34Flights(), c34TwoHellos(), c34SealedInner()}
+	return []*explore.Scenario{c34Hellos(thorough), c34Flights(), c34TwoHellos(), c34SealedInner(), c34ShortProtectedRecords()}
 }
 
 func init() {
@@ -519,4 +520,126 @@ func init() {
 			runAll(c, c34Scenarios(thorough), 0)
 			c.Gate(c.Total.Counters["server_returned"] > 50000, "non-vacuity: %d server runs", c.Total.Counters["server_returned"])
 		}})
+}
+
+// c34ShortProtectedRecords — the first records a client sends under the new keys, for every
+// TLS <= 1.2 suite of the server's table (stream, CBC and AEAD families, RSA and ECDHE key
+// exchange) at every version the suite exists in: after a scripted ClientHello, ClientKeyExchange
+// and ChangeCipherSpec the client sends one "protected" record of every small length (0..80: below,
+// at and above MAC, block, explicit-IV and tag sizes). The server must answer with an error
+// (bad_record_mac or similar), never with a panic.
+func c34ShortProtectedRecords() *explore.Scenario {
+	type suiteT struct {
+		id   uint16
+		name string
+		vers []uint16
+	}
+	var suites []suiteT
+	for _, cs := range append(tls.CipherSuites(), tls.InsecureCipherSuites()...) {
+		var vs []uint16
+		for _, v := range cs.SupportedVersions {
+			if v != tls.VersionTLS13 {
+				vs = append(vs, v)
+			}
+		}
+		if len(vs) > 0 {
+			suites = append(suites, suiteT{cs.ID, cs.Name, vs})
+		}
+	}
+	rsaLen := 256
+	if k, ok := peer.Fix().RSA.Leaf.PublicKey.(*rsa.PublicKey); ok {
+		rsaLen = (k.N.BitLen() + 7) / 8
+	}
+	ext := func(t uint16, b []byte) []byte {
+		return append([]byte{byte(t >> 8), byte(t), byte(len(b) >> 8), byte(len(b))}, b...)
+	}
+	return &explore.Scenario{
+		Name:     "short-records-after-change-cipher-spec",
+		Watchdog: 60 * time.Second, HangSig: "C34|hang",
+		Run: func(x *explore.X) (r explore.Result) {
+			s := suites[x.Choose("suite", len(suites))]
+			versions := []uint16{tls.VersionTLS12, tls.VersionTLS11, tls.VersionTLS10}
+			vers := versions[x.Choose("version", 3)]
+			ok := false
+			for _, v := range s.vers {
+				if v == vers {
+					ok = true
+				}
+			}
+			if !ok {
+				r.Obs = "suite-not-in-version"
+				return
+			}
+			typ := []byte{22, 23, 21}[x.Choose("type", 3)]
+			// hello
+			var exts []byte
+			exts = append(exts, ext(10, []byte{0, 4, 0, 29, 0, 23})...)
+			exts = append(exts, ext(11, []byte{1, 0})...)
+			exts = append(exts, ext(13, []byte{0, 10, 4, 3, 8, 4, 4, 1, 2, 3, 2, 1})...)
+			exts = append(exts, ext(0xff01, []byte{0})...)
+			body := []byte{byte(vers >> 8), byte(vers)}
+			body = append(body, rep(0x11, 32)...)
+			body = append(body, 0)
+			body = append(body, 0, 2, byte(s.id>>8), byte(s.id))
+			body = append(body, 1, 0)
+			body = append(body, byte(len(exts)>>8), byte(len(exts)))
+			body = append(body, exts...)
+			rec := func(t byte, p []byte) []byte {
+				return append([]byte{t, byte(vers >> 8), byte(vers), byte(len(p) >> 8), byte(len(p))}, p...)
+			}
+			var cke []byte
+			if strings.HasPrefix(s.name, "TLS_RSA_") {
+				cke = append([]byte{byte(rsaLen >> 8), byte(rsaLen)}, rep(0x42, rsaLen)...)
+				cke[2] = 0 // a value below the modulus
+			} else {
+				cke = append([]byte{32}, append([]byte{9}, make([]byte, 31)...)...) // X25519 base point
+			}
+			base := append(recordOf(hsMsg(1, body)), rec(22, hsMsg(16, cke))...)
+			base[1], base[2] = 3, 1
+			base = append(base, rec(20, []byte{1})...)
+			viol := 0
+			var seen []string
+			for l := 0; l <= 80; l++ {
+				stream := append(append([]byte{}, base...), rec(typ, rep(byte(0xa0+l%7), l))...)
+				ce, se := peer.Pipe()
+				scfg := peer.ServerConfig(peer.Fix().ECDSA, peer.Fix().RSA)
+				scfg.MinVersion = tls.VersionTLS10
+				scfg.MaxVersion = vers
+				scfg.CipherSuites = []uint16{s.id}
+				srv := tls.Server(se, scfg)
+				se.Inject(stream)
+				ce.SetIdle()
+				var err error
+				pm := catch(func() {
+					err = srv.Handshake()
+					if err == nil {
+						_, err = srv.Read(make([]byte, 16))
+					}
+				})
+				x.Transitions++
+				if pm != "" {
+					viol++
+					if viol <= 2 {
+						r.Violate(fmt.Sprintf("C34|server-panic|short-protected-record|%s|%s", map[bool]string{true: "stream-or-cbc", false: "aead"}[!strings.Contains(s.name, "GCM") && !strings.Contains(s.name, "CHACHA")], errClass(fmt.Errorf("%s", firstLineOf(pm)))),
+							"suite %s vers %04x: a type-%d record of %d bytes right after ChangeCipherSpec makes the server panic: %s", s.name, vers, typ, l, truncStr(pm, 300))
+					}
+				}
+				if err == nil {
+					r.Violate("C34|short-protected-record-accepted", "suite %s vers %04x: a %d-byte garbage record was accepted", s.name, vers, l)
+				}
+				e := truncStr(errClass(err), 40)
+				if len(seen) == 0 || seen[len(seen)-1] != e {
+					seen = append(seen, e)
+				}
+				r.Count("short_records_served", 1)
+				if err != nil && strings.Contains(err.Error(), "bad record MAC") {
+					r.Count("short_records_reached_the_cipher", 1)
+				}
+			}
+			r.Nontrivial = true
+			r.Class = fmt.Sprintf("%s|%04x|%d", s.name, vers, typ)
+			r.Obs = strings.Join(seen, ">")
+			return
+		},
+	}
 }
